@@ -338,6 +338,50 @@ def partial_optimizer(ctx: Ctx) -> None:
                               {"features": feats, "epochs": k})
 
 
+def shared_stateful_optimizer(ctx: Ctx) -> None:
+    """ONE stateful optimiser instance (Adam; SGD with momentum and weight decay) owning the parameters of TWO hedgers that are fitted
+    alternately: while one is fitted the parameters of the other are not in the loss and have no gradient - they keep their values,
+    exactly as in the explicit loop `zero_grad(); loss.backward(); step()` with that optimiser."""
+    from pfhedge.nn import EntropicRiskMeasure
+    feats = ["log_moneyness", "time_to_maturity", "volatility"]
+    for oname, mk in (("Adam", lambda ps: torch.optim.Adam(ps, lr=2.0 ** -6)), ("SGD(momentum, weight_decay)", lambda ps: torch.optim.SGD(ps, lr=2.0 ** -4, momentum=0.5, weight_decay=0.125))):
+        cfg = {"k": 1, "n": 3, "ntimes": 1, "validation": False, "optclass": False, "lazy": False, "init": "default", "pre_eval": False, "extra": False, "stale": False}
+        script = make_script(random.Random(ctx.seed * 13 + 5), 12)
+
+        def world():
+            a = build(cfg, script, [], feats, EntropicRiskMeasure(0.5))
+            b = build(cfg, script, [], feats, EntropicRiskMeasure(0.5))
+            with torch.no_grad():
+                for p_ in b[2].parameters():
+                    p_.mul_(0.5)
+            return a, b
+        (s1, d1, m1, h1), (s2, d2, m2, h2) = world()
+        opt = mk(list(m1.parameters()) + list(m2.parameters()))
+        (r1s, r1d, r1m, r1h), (r2s, r2d, r2m, r2h) = world()
+        ropt = mk(list(r1m.parameters()) + list(r2m.parameters()))
+        order = [0, 1, 0, 1]
+        for turn, who in enumerate(order):
+            hed, der, other_model = (h1, d1, m2) if who == 0 else (h2, d2, m1)
+            idle_before = [p_.detach().clone() for p_ in other_model.parameters()]
+            hed.fit(der, n_epochs=1, n_paths=3, optimizer=opt, verbose=False, validation=False)
+            rhed, rder = (r1h, r1d) if who == 0 else (r2h, r2d)
+            rhed.train(); ropt.zero_grad()
+            rder.simulate(n_paths=3)
+            rhed.criterion(rhed.compute_portfolio(rder), rder.payoff()).backward()
+            ropt.step()
+            ctx.count(json.dumps(["shared-optimizer", oname, turn]), n=1)
+            if turn == 0:
+                continue            # (before the idle hedger was ever fitted its parameters have no optimiser state at all)
+            if not all(torch.equal(a_, b_.detach()) for a_, b_ in zip(idle_before, other_model.parameters())):
+                ctx.violation("fit:updates-parameters-outside-the-loss", f"fit() of one hedger moved the parameters of ANOTHER hedger that share its optimiser instance ({oname}) but are not in the loss",
+                              {"optimizer": oname, "turn": turn})
+                break
+            if not all(torch.equal(a_.detach(), b_.detach()) for a_, b_ in zip(list(m1.parameters()) + list(m2.parameters()), list(r1m.parameters()) + list(r2m.parameters()))):
+                ctx.violation("fit:params-vs-explicit-loop", f"two hedgers fitted alternately with one {oname} instance end with other parameters than the explicit loops with that optimiser",
+                              {"optimizer": oname, "turn": turn})
+                break
+
+
 def check(ctx: Ctx) -> None:
     warnings.filterwarnings("ignore")
     from pfhedge.nn import EntropicRiskMeasure, ExpectedShortfall
@@ -432,6 +476,7 @@ def check(ctx: Ctx) -> None:
     real_primary_seeded(ctx)
     refit(ctx)
     partial_optimizer(ctx)
+    shared_stateful_optimizer(ctx)
     # ---- binding demonstration (synthetic, independent of /repo): the canonical behaviour of the automaton is accepted,
     # and dropping ZeroGrad in the second epoch / validating in train mode / an extra optimiser step is rejected
     cfg = {"k": 2, "n": 2, "ntimes": 2, "validation": True, "optclass": False, "lazy": False, "init": "default", "pre_eval": False, "extra": False, "stale": False}
